@@ -5,6 +5,7 @@ over multi-account histories; the Gallina model is evaluated (vm_compute) on the
 histories and compared after every transaction; the GovInv clauses are evaluated directly on
 the implementation's own dumps."""
 import glob
+import time
 import json
 import os
 import sys
@@ -150,13 +151,17 @@ def coq_compare(ctx, scs, outs, fixed, tag):
 
 def run(ctx):
     quick = ctx.tier == "quick"
-    pr = ctx.prove(extra_targets=["Gov/Check.vo"])
+    phase = {}
+    t0 = time.time()
+    pr = ctx.prove(extra_targets=["Gov/Check.vo", "Gov/Names.vo"])
     ctx.cov["trusted_base"] = ["Coq 8.16.1 kernel + vm_compute", "Go toolchain", "engines harness/engines/gov (replay of executeTx's governance "
                                "handling at package level)", "scenario generator lib/g8gov.py", "sort.Sort returns a permutation without inversions",
                                "aergo-lib memory DB"]
     ctx.assumptions = ["transaction amounts are non-negative (decoded from unsigned bytes)",
                        "sender is none of the two hard-coded mainnet exception accounts of addVpr/subVpr",
                        "red-black tree topVoters.members and vpr.lowest are outside the model (not read by block execution)"]
+    phase["prove"] = round(time.time() - t0, 1)
+    t0 = time.time()
     rc, log, govbin = ctx.go_test_binary("contract/system", [ENG], "gov.test", use_overlay=False)
     if rc != 0:
         raise RuntimeError("gov engine build failed:\n" + log[-3000:])
@@ -200,6 +205,13 @@ def run(ctx):
                 else:
                     fails.append(("in-memory voting power rank (total power, buckets) differs from loadVpr(state) at a block boundary",
                                   {"scenario": sc, "step": k - 1, "mem": d["mem"], "reload": d["reload"]}))
+            if at_boundary and not has_ghost:
+                for pi in range(4):
+                    want = d["pdb"][pi] if d["pdb"][pi] != "" else dumps[0]["pcur"][pi]
+                    if d["pcur"][pi] != want:
+                        known.append(("C15:param-negative-sign-dropped",
+                                      "in-memory system parameter differs from the one loaded from state at a block boundary (negative vote candidate, sign dropped by Bytes())",
+                                      {"scenario": sc, "step": k - 1, "param": pi, "memory": d["pcur"][pi], "state": want}))
             if d["mem"].get("treecorrupt") or (at_boundary and not has_ghost and not d["equals"] and G.vpr_mem_equals_reload(d)):
                 known.append(("C15:vpr-rbtree-stale-node",
                               "topVoters red-black tree holds a stale node (key mutated in place before Remove): vpr.equals(loadVpr) false / Keys() panics",
@@ -213,6 +225,8 @@ def run(ctx):
                       "BuildOrderedCandidates returns different rankings for the same vote map (parity-twin candidates with equal votes)",
                       {"twins": probe["twins"], "orders": p0["twin_orders"]}))
 
+    phase["gov_engine"] = round(time.time() - t0, 1)
+    t0 = time.time()
     # ---------------------------------------------------------------- model correspondence
     corr_broken = None
     try:
@@ -227,12 +241,80 @@ def run(ctx):
         corr_broken = ("model/implementation differ on %s" % ", ".join(comp.get(c, str(c)) for c in cs),
                        {"scenario": scs[i], "step": k, "op": scs[i]["ops"][k], "observed": outs[i]["dumps"][k + 1], "n_differing_scenarios": len(mism)})
 
+    phase["gov_model_eval"] = round(time.time() - t0, 1)
+    t0 = time.time()
+    # ---------------------------------------------------------------- name registry
+    rc, log, namebin = ctx.go_test_binary("contract/name", [NAME_ENG], "name.test", use_overlay=False)
+    if rc != 0:
+        raise RuntimeError("name engine build failed:\n" + log[-3000:])
+    nscs = [json.load(open(p)) for p in sorted(glob.glob(os.path.join(ctx.verif, "corpus", "C15", "names", "*.json")))]
+    nscs += [G.gen_name_scenario(ctx.rng) for _ in range(60 if quick else 1500)]
+    nouts = run_engine(ctx, namebin, "TestVerifNameEngine", nscs, "name")
+    nsteps, nerrs = 0, {}
+    for sc, o in zip(nscs, nouts):
+        if o.get("fatal"):
+            raise RuntimeError("name engine: scenario failed: %s\n%s" % (o["fatal"][:1500], json.dumps(sc)[:1500]))
+        for d in o["dumps"]:
+            nerrs[d["err"]] = nerrs.get(d["err"], 0) + 1
+            if d["err"].startswith("other") or d.get("panic"):
+                fails.append(("name engine: unclassified outcome " + d["err"] + " " + (d.get("panic") or ""), {"scenario": sc}))
+        G.name_predicates(sc, o["dumps"], fails)
+        nsteps += len(sc["ops"])
+        nontriv.update(("name", op["op"], d["err"]) for op, d in zip(sc["ops"], o["dumps"][1:]))
+    import re
+    for base in range(0, len(nscs), 300):
+        items = [G.name_scenario_to_coq(sc, o["dumps"]) for sc, o in zip(nscs[base:base + 300], nouts[base:base + 300])]
+        rc, out = ctx.coq_eval("names_%d" % base, G.name_cases_file(items))
+        flat = " ".join(out.split())
+        m = re.search(r"MN = (\[.*?\]|nil) : list", flat)
+        if rc != 0 or not m:
+            corr_broken = corr_broken or ("name model evaluation failed", out[-2000:])
+        else:
+            bad = re.findall(r"\((\d+)%nat, (\d+)%nat\)", m.group(1))
+            if bad:
+                i, k = int(bad[0][0]) + base, int(bad[0][1])
+                corr_broken = corr_broken or ("model/implementation differ on the name registry",
+                                              {"scenario": nscs[i], "step": k, "op": nscs[i]["ops"][k], "observed": nouts[i]["dumps"][k + 1]})
+    steps += nsteps
+    phase["names"] = round(time.time() - t0, 1)
+    ctx.cov["phase_seconds"] = phase
+
+    # ---------------------------------------------------------------- F19: plain transfer to aergo.system (real block executor)
+    t0 = time.time()
+    import g8determ as D
+    DE = os.path.join(vf.HARNESS, "engines/determ")
+    rc, log, dbin = ctx.go_test_binary("chain", [os.path.join(DE, "zz_verif_determ_engine_test.go"), os.path.join(DE, "zz_verif_determ_gather_test.go")], "determ.test")
+    if rc != 0:
+        raise RuntimeError("determ engine build failed:\n" + log[-3000:])
+    case = {"id": "f19", "ver": 2, "naccts": 2, "bal": str(D.BAL), "blocks": [
+        {"ts": 1000, "txs": [{"from": 0, "nonce": 1, "kind": "stake", "amt": str(D.S)},
+                             {"from": 1, "nonce": 1, "kind": "transfer", "to": "aergo.system", "amt": "12345"}]}]}
+    fin, fout = os.path.join(ctx.workdir, "f19.in"), os.path.join(ctx.workdir, "f19.out")
+    open(fin, "w").write(json.dumps(case) + "\n")
+    tmpd = os.path.join(ctx.workdir, "tmp")
+    os.makedirs(tmpd, exist_ok=True)
+    rc, log = ctx.run_bin(dbin, ["-test.run", "TestVerifDetermEngine"], env={"VERIF_IN": fin, "VERIF_OUT": fout, "VERIF_MODE": "produce",
+                                                                            "ARGLIB_LEVEL": "error", "VERIF_TMP": tmpd})
+    if rc != 0:
+        raise RuntimeError("determ engine failed:\n" + log[-3000:])
+    r19 = json.loads(open(fout).readline())
+    if r19.get("fatal"):
+        raise RuntimeError("determ engine: " + r19["fatal"][:2000])
+    b19 = r19["blocks"][0]
+    gov19 = b19["gov"]
+    steps += 2
+    if 1 in (b19.get("included") or []):
+        if int(gov19["bal_system"]) != int(gov19["staking_total"]):
+            known.append(("C15:transfer-to-system-account", "plain transfer to aergo.system accepted: balance(aergo.system) = %s, staking total = %s" % (gov19["bal_system"], gov19["staking_total"]),
+                          {"case": case, "gov": {k: gov19[k] for k in ("bal_system", "staking_total")}}))
+    phase["f19_chain_engine"] = round(time.time() - t0, 1)
+
     ctx.cov["evaluations"] = steps
-    ctx.cov["traces_validated_against_impl"] = len(scs)
+    ctx.cov["traces_validated_against_impl"] = len(scs) + len(nscs)
     ctx.cov["distinct_nontrivial"] = len(nontriv)
     ctx.cov["rule"] = ("one evaluation = one governance operation executed by the real code and by the model with every observable compared; "
                        "distinct = distinct (operation, outcome class, number of stakers, number of non-empty rankings) tuples reached")
-    ctx.cov["input_distribution"] = {"scenarios": len(scs), "corpus": ncorpus, "outcomes": hist,
+    ctx.cov["input_distribution"] = {"scenarios": len(scs), "corpus": ncorpus, "outcomes": hist, "name_scenarios": len(nscs), "name_outcomes": nerrs,
                                      "ops": {k: sum(1 for sc in scs for o in sc["ops"] if o["op"] == k) for k in ("stake", "unstake", "votebp", "votedao", "block", "reload")}}
     for sc, o in list(zip(scs, outs))[:2]:
         ctx.sample({"ops": sc["ops"][:6], "last_dump": {k: o["dumps"][-1][k] for k in ("total", "sysbal", "pcur")}})
